@@ -117,12 +117,12 @@ def run_controls(prop, mod, chk, seed=0):
                         skipped.append({"control": "benign/" + name, "why": "patch does not apply to the current tree"})
                         continue
                     try:
+                        # the facts of a benign variant do not depend on the property: they stay in the content-addressed cache so
+                        # that the thorough runs of the other properties reuse them (pruned by age / count in extract._prune_cache)
                         v = violations_in(dest, mod, prop)
                     except extract.ExtractError as e:
                         skipped.append({"control": "benign/" + name, "why": "variant does not build"})
                         continue
-                    finally:
-                        drop_variant_facts(dest)
                     if base is None:
                         base = set(violations_in("/repo", mod, prop))
                     new = sorted(set(v) - base)
